@@ -42,8 +42,9 @@ class Engine:
         raise NotImplementedError
 
     def timeout(self, tier: str) -> int:
-        """Wall seconds after which a single run is killed (HARNESS error)."""
-        return 120
+        """Wall seconds after which a single run is killed (HARNESS error).  Generous: the enumerated
+        sweep runs take tens of seconds on a busy machine; a kill is a harness error, never a verdict."""
+        return 600
 
     def deadline(self, tier: str) -> float:
         """Wall seconds after which a worker stops starting new runs (the evidence
